@@ -73,6 +73,25 @@ def rule_tables(ck):
             ck.require("demand_charge" in s, "C17.T2", name, f"{s.get('id')}: demand_charge", bad="missing demand_charge", sink=f"{name}#{s.get('id')}#demand")
 
 
+def _alpha(e):
+    """canonical text with comprehension variables renamed in order of appearance (_v0, _v1, ..): the name a comprehension variable
+    carries (also one given by the helper inliner) does not matter"""
+    import copy as _c
+    e = _c.deepcopy(e)
+    k = [0]
+    for c in [x for x in ast.walk(e) if isinstance(x, (ast.ListComp, ast.SetComp, ast.GeneratorExp, ast.DictComp))]:
+        names = {}
+        for g in c.generators:
+            for t in ast.walk(g.target):
+                if isinstance(t, ast.Name) and t.id not in names:
+                    names[t.id] = f"_v{k[0]}"
+                    k[0] += 1
+        for x in ast.walk(c):
+            if isinstance(x, ast.Name) and x.id in names:
+                x.id = names[x.id]
+    return canon(e)
+
+
 def rule_schedule_parse(ck, rid="C17.S1"):
     repo = ck.repo
     f = repo.fn("TariffSchedule.__init__")
@@ -83,7 +102,7 @@ def rule_schedule_parse(ck, rid="C17.S1"):
         if p == "self.dow_mask":
             lit = None
             for a, tr in facts_at(fl, n):
-                c = cmp_norm(a, tr)
+                c = cmp_norm(fl.expand(a, n), tr)
                 if c and c[1] == "==" and isinstance(c[2], ast.Constant) and "dow_mask" in canon(c[0]):
                     lit = c[2].value
                 elif c and c[1] == "==" and isinstance(c[0], ast.Constant) and "dow_mask" in canon(c[2]):
@@ -99,21 +118,54 @@ def rule_schedule_parse(ck, rid="C17.S1"):
                    bad=f'mask for "{key}" must be {want}; got {got[0] if got else None}', sink=f"mask-{key}")
     for attr, field in (("start", "effective_start"), ("end", "effective_end")):
         st = [(n, t) for n, k, p, t in state_writes(fl) if p == f"self.{attr}"]
-        ok = len(st) == 1 and canon(st[0][0].stmt.value) in (f'tuple((int(x) for x in {doc}["{field}"].split("-")))', f"tuple((int(x) for x in {doc}['{field}'].split('-')))")
+        ok = len(st) == 1 and _alpha(fl.expand(st[0][0].stmt.value, st[0][0])).replace('"', "'") == f"tuple((int(_v0) for _v0 in {doc}['{field}'].split('-')))"
         ck.require(ok, rid, f, st[0][0].stmt if st else attr, ok=f"{attr} = (month, day) parsed from {field}", bad=f"self.{attr} must be the (month, day) tuple parsed from doc['{field}']",
                    sink=f"parse-{attr}")
     # breakpoints: (Decimal(times[i]), float(tariffs[i])) pairs, sorted, first must be 0
     st = [(n, t) for n, k, p, t in state_writes(fl) if p == "self.tariffs" and k == "assign"]
     ok = False
+    sorted_by_construction = False
     if len(st) == 1:
-        lst = collect_list(fl, st[0][0].stmt.value, st[0][0])
+        val = st[0][0].stmt.value
+        exv = fl.expand(val, st[0][0])
+        if isinstance(exv, ast.Call) and call_name(exv) == "sorted" and len(exv.args) == 1 and not exv.keywords:
+            sorted_by_construction = True         # a local list, sorted in place, then stored
+            lst = collect_list(fl, exv.args[0], st[0][0])
+        else:
+            lst = collect_list(fl, val, st[0][0])
         if lst and len(lst) == 1 and isinstance(lst[0][0], ast.Tuple) and len(lst[0][0].elts) == 2:
             a, b = canon(lst[0][0].elts[0]), canon(lst[0][0].elts[1])
             ok = '"times"' in a.replace("'", '"') and '"tariffs"' in b.replace("'", '"') and a.split("[__idx__")[-1] == b.split("[__idx__")[-1]
     ck.require(ok, rid, f, st[0][0].stmt if st else "self.tariffs", ok="(time_i, price_i) pairs with the same index", bad="breakpoints must pair times[i] with tariffs[i]", sink="pairs")
     sorts = [(n, c) for n, c in calls_in(fl, "sort") if canon(c.func.value) == "self.tariffs" and not c.keywords]
-    ck.require(bool(sorts), rid, f, sorts[0][1] if sorts else "self.tariffs.sort()", ok="breakpoints sorted by time", bad="breakpoints must be sorted ascending by time", sink="sorted")
-    raises = [n for n in fl.cfg.nodes if n.kind == "raise" and any((c := cmp_norm(a, t)) and c[1] == "!=" and "self.tariffs[0][0]" in (canon(c[0]), canon(c[2])) and "0" in (canon(c[0]), canon(c[2]))
+    ck.require(bool(sorts) or sorted_by_construction, rid, f, sorts[0][1] if sorts else "self.tariffs.sort()", ok="breakpoints sorted by time", bad="breakpoints must be sorted ascending by time", sink="sorted")
+
+    def first_breakpoint(e, n):
+        # self.tariffs[0][0], directly or through the local list that was stored into it
+        ce = canon(e)
+        if ce == "self.tariffs[0][0]":
+            return True
+        if isinstance(e, ast.Subscript) and isinstance(e.value, ast.Subscript) and canon(e.slice) == "0" and canon(e.value.slice) == "0" and isinstance(e.value.value, ast.Name) and st:
+            return isinstance(st[0][0].stmt.value, ast.Name) and st[0][0].stmt.value.id == e.value.value.id
+        return False
+
+    def unexpanded_first(a, n):
+        # the compared operand, one temporary at a time (`first_hour = breakpoints[0][0]`)
+        for side in (a.left, a.comparators[0]) if isinstance(a, ast.Compare) and len(a.ops) == 1 else ():
+            e = side
+            for _ in range(3):
+                if first_breakpoint(e, n):
+                    return True
+                if isinstance(e, ast.Name) and len(fl.defs_at(n, e.id)) == 1:
+                    d = next(iter(fl.defs_at(n, e.id)))
+                    how = fl.def_how(d, e.id)
+                    if how[0] == "assign" and how[1] is not None:
+                        e, n = how[1], d
+                        continue
+                break
+        return False
+    raises = [n for n in fl.cfg.nodes if n.kind == "raise" and any(((c := cmp_norm(a, t)) and c[1] == "!=" and "0" in (canon(c[0]), canon(c[2])) and
+                                                                      ("self.tariffs[0][0]" in (canon(c[0]), canon(c[2])) or unexpanded_first(a, n)))
                                                                      for a, t in facts_at(fl, n))]
     ck.require(bool(raises), rid, f, raises[0].stmt if raises else "raise if first breakpoint != 0", ok="a table not starting at 0 is rejected", bad="tables whose first breakpoint is not 0 must be rejected",
                sink="first-zero")
@@ -132,6 +184,20 @@ def rule_wrap(ck, rid="C17.S1"):
                 c = cmp_norm(a, t)
                 if c and c[1] == "<" and canon(c[0]).endswith(".end") and canon(c[2]).endswith(".start") and canon(c[0])[:-4] == canon(c[2])[:-6]:
                     edges.append((n, canon(c[0])[:-4]))
+    if not edges:
+        # the same test written as the filter of the list the loop walks:  for s in [s for s in self._schedule if s.end < s.start]
+        for n in cfg.nodes:
+            if n.kind != "for" or not isinstance(n.stmt.target, ast.Name):
+                continue
+            it = fl.expand(n.stmt.iter, n)
+            if isinstance(it, ast.ListComp) and len(it.generators) == 1 and canon(it.generators[0].iter) == "self._schedule" and len(it.generators[0].ifs) == 1 \
+                    and isinstance(it.generators[0].target, ast.Name) and canon(it.elt) == it.generators[0].target.id:
+                v = it.generators[0].target.id
+                c = cmp_norm(it.generators[0].ifs[0])
+                if c and c[1] == "<" and canon(c[0]) == f"{v}.end" and canon(c[2]) == f"{v}.start":
+                    te = [x for x in n.succ if x.kind == "edge" and x.label is True]
+                    if te:
+                        edges.append((te[0], n.stmt.target.id))
     ck.require(len(edges) == 1, rid, f, "if s.end < s.start", ok="wrapping seasons detected by end < start", bad="the wrap-around season test (end < start) is missing", sink="wrap-test")
     if len(edges) != 1:
         return
@@ -159,7 +225,11 @@ def rule_wrap(ck, rid="C17.S1"):
     apps = [(n, c) for n, c in calls_in(fl, "append") if n in reg and c.args and canon(c.args[0]) == cp]
     ck.require(len(apps) == 1 and cfg.exit not in cfg.reach(e, avoid={apps[0][0]} | {x for x in cfg.nodes if x.kind == "for"}) if apps else False, rid, f,
                apps[0][1] if apps else "to_add.append(s_copy)", ok="second half kept", bad="the second half of a wrapping season is dropped", sink="wrap-append")
-    if apps:
+    if apps and canon(apps[0][1].func.value) == "self._schedule":
+        # appended to the schedule list itself - fine as long as the loop does not walk that very list while it grows
+        walked = [n for n in cfg.nodes if n.kind == "for" and n in {t for t, lab in cfg.edges_dominating(apps[0][0])} and canon(n.stmt.iter) == "self._schedule"]
+        ck.require(not walked, rid, f, apps[0][1], ok="second halves added to the schedule list", bad="the schedule list is extended while it is being iterated", sink="wrap-extend")
+    elif apps:
         lst = canon(apps[0][1].func.value)
         ext = [(n, c) for n, c in calls_in(fl, "extend") if canon(c.func.value) == "self._schedule" and c.args and canon(c.args[0]) == lst]
         ck.require(len(ext) == 1, rid, f, ext[0][1] if ext else "self._schedule.extend(to_add)", ok="second halves added to the schedule list", bad="the second halves are never added to the schedule list",
@@ -291,7 +361,7 @@ def rule_lookup(ck, rid="C17.S1"):
     ok = False
     for r in rets:
         # the loop element is r (then r[0] / r[1]) or is unpacked by the loop target (begins, price): both are __item__(element, k)
-        inner = [(a, t) for a, t in facts_at(fl, r) if any(isinstance(x, ast.Name) and x.id in lvars for x in ast.walk(a))]
+        inner = [(a, t) for a, t in facts_at(fl, r) if any(isinstance(x, ast.Name) and x.id in lvars for x in ast.walk(a)) or "__elem__(" in canon(fl.expand(a, r))]
         good = [c for a, t in inner if (c := cmp_norm(a, t)) and canon(norm_items(fl.expand(c[0], r))) == f"__item__({elem}, 0)" and c[1] == "<="
                 and canon(fl.expand(c[2], r)).startswith("Decimal(")]
         if len(good) == 1 and len(inner) == 1 and r.expr is not None and canon(norm_items(fl.expand(r.expr, r))) == f"__item__({elem}, 1)":
